@@ -2536,6 +2536,9 @@ impl CanonicalizeContext {
 			// debug!("convert_to_mmultiscripts (i={}) -- PARENT:\n{}", i, mml_to_string(&parent));
 
 			let i_base = choose_base_of_mmultiscripts(mrow_children, i);
+			if i_base == i {
+				return i + 1;		// nothing around it can serve as a base -- leave the script (with its empty base) as it is
+			}
 			let mut base = as_element(mrow_children[i_base]);
 			// debug!("convert_to_mmultiscripts -- base\n{}", mml_to_string(&base));
 			let base_name = name(&base);
